@@ -78,6 +78,10 @@ def run(e: Engine, rep: Report):
              'recipients of the failure envelope nor the replies pass '
              'through sorted / set / reversed / dict on their own')
     b11(e, rep)
+    rep.rule('B12', 'the default bounce factory always makes a bounce (a '
+             'class, or a function none of whose returns is None): only a '
+             'factory the application plugged in may decline')
+    b12(e, rep)
 
 
 def b5(e: Engine, rep: Report):
@@ -1225,3 +1229,65 @@ def b11(e: Engine, rep: Report):
                           ' '.join(ast.unparse(bad[0]).split())[:30]
                           if bad else ''), loc=c.loc(),
                       reason='order as collected')
+
+
+# --------------------------------------------------------------------- B12
+def b12(e: Engine, rep: Report, rule: str = 'B12'):
+    """Queue._bounce enqueues what the factory returns if it is truthy.  The
+    application may plug in a factory that declines; the DEFAULT one may
+    not: with it, every permanent failure of a message with a sender ends in
+    a bounce."""
+    ctx = e.method_ctx(QUEUE, '__init__')
+    where = ctx.func.qname
+    rep.functions.add(where)
+    dflt = None
+    for a in walk_own(ctx.func.node):
+        if isinstance(a, ast.Assign) and any(
+                isinstance(t, ast.Attribute) and t.attr == 'bounce_factory'
+                for t in a.targets):
+            v = a.value
+            if isinstance(v, ast.BoolOp) and isinstance(v.op, ast.Or):
+                dflt = v.values[-1]
+            elif isinstance(v, ast.IfExp):
+                dflt = v.orelse if isinstance(v.orelse, (
+                    ast.Name, ast.Attribute)) and not (
+                    isinstance(v.orelse, ast.Name) and
+                    v.orelse.id in ctx.func.params) else v.body
+            else:
+                dflt = v
+    rep.evaluations += 1
+    if dflt is None:
+        rep.unknown(rule, where, 'default bounce factory',
+                    'cannot see what Queue.__init__ uses when no '
+                    'bounce_factory is given', loc=ctx.func.loc())
+        return
+    q = e.p.resolve_expr_qname(ctx.func.module, dflt)
+    if q in e.p.classes:
+        rep.ok(rule, where, 'default bounce factory `%s`' % ast.unparse(dflt),
+               reason='a class: calling it makes a bounce', loc=ctx.func.loc())
+        return
+    f = e.p.functions.get(q) if q else None
+    if f is None and isinstance(dflt, ast.Attribute):
+        cq = e.p.resolve_expr_qname(ctx.func.module, dflt.value)
+        if cq in e.p.classes:
+            f = e.p.lookup_method(cq, dflt.attr)
+    if f is None:
+        rep.unknown(rule, where, 'default bounce factory `%s`'
+                    % ast.unparse(dflt), 'cannot resolve it',
+                    loc=ctx.func.loc())
+        return
+    rep.functions.add(f.qname)
+    rets = [r for r in walk_own(f.node) if isinstance(r, ast.Return)]
+    none = [r for r in rets if r.value is None or (
+        isinstance(r.value, ast.Constant) and r.value.value is None)]
+    last = f.node.body[-1] if f.node.body else None
+    falls = not isinstance(last, (ast.Return, ast.Raise))
+    rep.check(not none and not falls and bool(rets), rule, f.qname,
+              'default bounce factory `%s` always makes a bounce'
+              % ast.unparse(dflt),
+              'the factory the queue uses by default can return None%s: '
+              'for such a message _bounce enqueues nothing, the failed '
+              'message is removed and its sender is never told'
+              % (' (line %d)' % none[0].lineno if none else ''),
+              loc=f.loc(none[0]) if none else f.loc(),
+              reason='every return hands back an object')
